@@ -1204,6 +1204,9 @@ def merge_sites(atoms: Atoms, indices, merging_strategies={}, keep_all=False):
 
     """
     atoms_orig = atoms.copy()
+    # The deletion loop below relies on ascending indices; sorting them also
+    # makes the result independent of the order in which the group is listed
+    indices = sorted(indices)
     atoms_to_merge = atoms.copy()[indices]
 
     # if we already have multiplicity
